@@ -24,6 +24,12 @@
 (*            same built-ins with values BEYOND 2^53 / more than 16 digits; *)
 (*            TLC integers are 32 bit, so these values are digit sequences  *)
 (*            [ip, fp] with an exact order (DigCmp / BigCmp)                *)
+(*   gYearMonth, gYear: built-ins whose value space depends on the XSD     *)
+(*            VERSION of the schema (1.0: no year 0000, -0001 = 1 BCE;      *)
+(*            1.1: -0001 = 2 BCE): AstroYear; like date they have one       *)
+(*            datatype class per version                                    *)
+(*   qname  = xs:QName: an unprefixed value is in the default namespace of  *)
+(*            the document (XSD part 2, 3.2.18)                              *)
 (* A kid declaration with anon = TRUE has an ANONYMOUS local simple type,   *)
 (* a restriction (no facet) of ty: the type annotation has no name.         *)
 (* A kid declaration with sg = TRUE is  <xs:element ref="a"/>  to a GLOBAL *)
@@ -118,7 +124,10 @@ BoolOf(s) == s \in {LTrue, <<"1">>}
 ---------------------------------------------------------------------------
 (* The type hierarchy (XSD part 2 section 3, built-in derivation; part 1 3.4.2 for sc/grp) *)
 AtomicBuiltins == {"short", "int", "long", "integer", "decimal", "string", "date", "boolean",
-                   "unsignedLong", "nonNegativeInteger"}
+                   "unsignedLong", "nonNegativeInteger", "gYearMonth", "gYear", "qname"}
+VersionedTags  == {"date", "gYearMonth", "gYear"}      \* one datatype class per XSD version (binding table)
+(* proleptic (astronomical) year of a lexical year under the two versions of XSD part 2 (3.2.7 / D.3.2) *)
+AstroYear(ver, ly) == IF ver = "1.0" /\ ly < 0 THEN ly + 1 ELSE ly
 AnonBases      == {"int", "integer", "decimal", "string"}
 Anon(T)        == CASE T = "int" -> "~int" [] T = "integer" -> "~integer" [] T = "decimal" -> "~decimal" [] T = "string" -> "~string"
 AnonTypes      == {Anon(T) : T \in AnonBases}
@@ -138,7 +147,7 @@ BaseOf(T) == CASE T = "short"   -> "int"
                [] T = "bint"    -> "integer"      \* bint IS xs:integer (an alias whose values are digit sequences)
                [] T = "bdec"    -> "decimal"      \* bdec IS xs:decimal
                [] T \in AnonTypes -> AnonBase(T)  \* anonymous restriction
-               [] T \in {"decimal", "string", "date", "boolean"} -> "anyAtomicType"
+               [] T \in {"decimal", "string", "date", "boolean", "gYearMonth", "gYear", "qname"} -> "anyAtomicType"
                [] T = "anyAtomicType" -> "anySimpleType"
                [] T \in {"ilist", "u", "ud"} -> "anySimpleType"
                [] T = "anySimpleType" -> "anyType"
@@ -158,7 +167,8 @@ SgMember(T) == CASE T = "decimal" -> "int" [] T = "integer" -> "int" [] T = "int
 HasSimpleValue(T) == T \in SimpleTypes \cup AnonTypes \cup {"sc", "v"}      \* simple or simple-content type
 ContentType(T)    == IF T = "sc" THEN "decimal" ELSE IF T \in AnonTypes THEN AnonBase(T) ELSE T
 (* the datatype class of a value of type T: the nearest built-in atomic type *)
-AtomClass(T) == CASE T = "small" -> "int" [] T = "bint" -> "bigInteger" [] T = "bdec" -> "bigDecimal" [] OTHER -> T
+AtomClass(T) == CASE T = "small" -> "int" [] T = "bint" -> "bigInteger" [] T = "bdec" -> "bigDecimal"
+                  [] T = "qname" -> "QName" [] OTHER -> T
 
 (* numbers that do not fit 32 bits (nor a double): non-negative, [ip, fp] digit sequences, *)
 (* ip without leading zeros, fp without trailing zeros                                      *)
@@ -198,6 +208,11 @@ ValidLex(T, s) ==
     [] T \in {"long", "unsignedLong"} -> AllDigits(c) /\ Len(c) <= 18   \* below 2^63 whatever the digits
     [] T = "bint"    -> AllDigits(c)
     [] T = "bdec"    -> IsDecLex(c) /\ ~Signed(c)
+    [] T = "gYear"   -> LET b == IF c # <<>> /\ c[1] = "-" THEN Tail(c) ELSE c IN Len(b) = 4 /\ AllDigits(b) /\ NatOf(b) # 0
+    [] T = "gYearMonth" -> LET b == IF c # <<>> /\ c[1] = "-" THEN Tail(c) ELSE c IN
+                           /\ Len(b) = 7 /\ b[5] = "-" /\ AllDigits(SubSeq(b, 1, 4)) /\ AllDigits(SubSeq(b, 6, 7))
+                           /\ NatOf(SubSeq(b, 1, 4)) # 0 /\ NatOf(SubSeq(b, 6, 7)) \in 1..12     \* no year 0000: valid in BOTH versions
+    [] T = "qname"   -> c # <<>> /\ (\A i \in 1..Len(c) : c[i] # " ")
     [] T = "u"       -> Collapse(s) = s           \* the xs:string member accepts everything; lexicals with
                                                   \* surrounding white space are outside the universe (XSD 1.0
                                                   \* and 1.1 normalise them differently before the member test)
@@ -221,6 +236,13 @@ TypedValue(T, s) ==
     [] T = "boolean" -> <<VBool(BoolOf(c))>>
     [] T = "ilist"   -> [i \in 1..Len(Toks(s)) |-> VInt("int", IntOf(Toks(s)[i]))]
     [] T = "u"       -> IF IsIntLex(s) /\ s # <<>> THEN <<VInt("int", IntOf(s))>> ELSE <<VStr(s)>>
+    [] T = "gYear"   -> LET b == IF c[1] = "-" THEN Tail(c) ELSE c IN
+                        <<[t |-> "gYear", ly |-> SignOf(c) * NatOf(b)]>>
+    [] T = "gYearMonth" -> LET b == IF c[1] = "-" THEN Tail(c) ELSE c IN
+                        <<[t |-> "gYearMonth", ly |-> SignOf(c) * NatOf(SubSeq(b, 1, 4)), m |-> NatOf(SubSeq(b, 6, 7))]>>
+    [] T = "qname"   -> LET k == IF \E i \in 1..Len(c) : c[i] = ":" THEN CHOOSE i \in 1..Len(c) : c[i] = ":" ELSE 0 IN
+                        <<[t |-> "QName", ns |-> "urn:t", lo |-> SubSeq(c, k + 1, Len(c))]>>     \* prefix t and the default
+                                                                                                 \* namespace are both urn:t
     [] T = "long"    -> <<VBig("long", s)>>
     [] T = "unsignedLong" -> <<VBig("unsignedLong", s)>>
     [] T = "bint"    -> <<VBig("bigInteger", s)>>
@@ -247,6 +269,9 @@ D53h  == B53p1 \o <<".","5">>
 B30   == <<"1","2","3","4","5","6","7","8","9","0","1","2","3","4","5","6","7","8","9","0",
            "1","2","3","4","5","6","7","8","9","0">>
 BigLits == {B53, B53p1, B53p2, D53h, B30}          \* literals the probes compare with
+Lym1 == <<"1","9","9","9","-","0","9">>     Lym2 == <<"-","0","0","0","1","-","0","5">>
+Lgy1 == <<"1","9","9","9">>                 Lgy2 == <<"-","0","0","0","1">>
+Lqn1 == <<"x">>                             Lqn2 == <<"t",":","x">>
 
 LexSeq(T) == CASE T = "int"     -> <<L7, Lsp7, Lm3, L12>>
                [] T = "integer" -> <<Lm3, L7>>
@@ -259,6 +284,9 @@ LexSeq(T) == CASE T = "int"     -> <<L7, Lsp7, Lm3, L12>>
                [] T = "ilist"   -> <<Llist, Llist2, L7>>
                [] T = "u"       -> <<L7, Lx, Lm3>>
                [] T = "ud"      -> <<Lx, Ldec>>
+               [] T = "gYearMonth" -> <<Lym2, Lym1>>
+               [] T = "gYear"   -> <<Lgy2, Lgy1>>
+               [] T = "qname"   -> <<Lqn1, Lqn2>>
                [] T = "long"    -> <<B53p1, B53>>
                [] T = "unsignedLong" -> <<B53p2, B53p1>>
                [] T = "bint"    -> <<B53, B30>>
@@ -268,6 +296,7 @@ Lex(T) == {LexSeq(T)[i] : i \in 1..(IF LexCap < Len(LexSeq(T)) THEN LexCap ELSE 
 SecondLex(T) == CASE T \in {"int", "integer", "small", "decimal", "sc", "u", "ud", "ilist"} -> L7
                   [] T = "string" -> Lx  [] T = "date" -> Ld1  [] T = "boolean" -> LTrue
                   [] T \in BigTypes -> B53p1
+                  [] T = "gYearMonth" -> Lym1 [] T = "gYear" -> Lgy1 [] T = "qname" -> Lqn1
                   [] T = "grp" -> <<>>
 (* default value of the declaration at position pos (kid3 differs from kid1 on purpose) *)
 DefaultLex(T, pos) == CASE T \in {"int", "integer", "small", "decimal", "sc", "u", "ud", "string"} -> IF pos = 3 THEN L5 ELSE L3
@@ -275,6 +304,7 @@ DefaultLex(T, pos) == CASE T \in {"int", "integer", "small", "decimal", "sc", "u
                         [] T = "boolean" -> IF pos = 3 THEN LFalse ELSE LTrue
                         [] T = "ilist"   -> IF pos = 3 THEN Llist2 ELSE Llist
                         [] T \in BigTypes -> B53p1
+                        [] T = "gYearMonth" -> Lym1 [] T = "gYear" -> Lgy1 [] T = "qname" -> Lqn1
 (* types an instance may name in xsi:type: derived from the declared type *)
 XsiTypes(T) == CASE T = "int" -> {"small"}  [] T = "integer" -> {"int"}  [] T = "decimal" -> {"int", "small"}
                  [] OTHER -> {}
@@ -300,14 +330,17 @@ AttNames(S)    == {d.nm : d \in S.atts}
 
 ---------------------------------------------------------------------------
 (* Instances: inst.kids[i] = sequence of occurrences of kid i; inst.atts[nm] = lexical or NoLex *)
-Occ(lx, nil, xt, at, sub) == [lx |-> lx, nil |-> nil, xt |-> xt, at |-> at, sub |-> sub, mem |-> FALSE]
-MemOcc(lx) == [lx |-> lx, nil |-> FALSE, xt |-> "none", at |-> NoLex, sub |-> NoLex, mem |-> TRUE]
+Occ(lx, nil, xt, at, sub) == [lx |-> lx, nil |-> nil, xt |-> xt, at |-> at, sub |-> sub, mem |-> FALSE, nf |-> FALSE]
+MemOcc(lx) == [lx |-> lx, nil |-> FALSE, xt |-> "none", at |-> NoLex, sub |-> NoLex, mem |-> TRUE, nf |-> FALSE]
+(* xsi:nil="false" on an element that has content: the element is NOT nilled *)
+NfOcc(lx)  == [lx |-> lx, nil |-> FALSE, xt |-> "none", at |-> NoLex, sub |-> NoLex, mem |-> FALSE, nf |-> TRUE]
 
 OccVariants(d, pos) ==
   (IF d.ty = "grp"
    THEN {Occ(<<>>, FALSE, "none", NoLex, s) : s \in (IF LexCap = 1 THEN {NoLex, LTrue} ELSE {NoLex, LTrue, <<"0">>})}
    ELSE {Occ(l, FALSE, "none", a, NoLex) : l \in Lex(d.ty), a \in (IF d.ty = "sc" THEN {NoLex, L7} ELSE {NoLex})})
   \cup (IF d.nil THEN {Occ(<<>>, TRUE, "none", NoLex, NoLex)} ELSE {})
+  \cup (IF d.nil /\ d.ty # "grp" THEN {NfOcc(SecondLex(d.ty))} ELSE {})
   \cup (IF d.dv THEN {Occ(<<>>, FALSE, "none", NoLex, NoLex)} ELSE {})
   \cup (IF XsiOn /\ ~d.anon THEN {Occ(l, FALSE, x, NoLex, NoLex) : x \in XsiTypes(d.ty), l \in {L7, Lm3}} ELSE {})
   \cup (IF VOn /\ pos = 1 /\ d.ty \in VBases /\ ~d.sg /\ ~d.anon THEN {Occ(L7, FALSE, "v", NoLex, NoLex)} ELSE {})
@@ -349,6 +382,7 @@ ValidInstance(S, inst) ==
             /\ o.nil => d.nil /\ o.lx = <<>> /\ o.sub = NoLex
             /\ o.xt # "none" => d.ty \in ChainS(S, o.xt) /\ o.xt # d.ty /\ (o.xt = "v" => i = 1) /\ ~d.anon
             /\ o.mem => d.sg /\ o.xt = "none" /\ ~o.nil
+            /\ o.nf => d.nil /\ ~o.nil
             /\ ~o.nil => ValidLexS(S, EffType(d, o), EffText(d, i, o))
             /\ o.at # NoLex => EffType(d, o) = "sc" /\ ValidLex("int", o.at)
             /\ o.sub # NoLex => EffType(d, o) = "grp" /\ ValidLex("boolean", o.sub)
@@ -380,6 +414,7 @@ OccNodes(d, i, j, o, at) ==
   LET ek   == IF o.mem THEN "em" ELSE IF KidName(i) = "a" THEN "ea" ELSE "eb"
       el   == <<Node(1, ek, "kid", i, j, o.lx, FALSE)>>
       xa   == (IF o.nil THEN <<Node(at, "xx", "xnil", i, j, LTrue, FALSE)>> ELSE <<>>)
+              \o (IF o.nf THEN <<Node(at, "xx", "xnil", i, j, LFalse, FALSE)>> ELSE <<>>)
               \o (IF o.xt # "none" THEN <<Node(at, "xx", "xtype", i, j, <<o.xt>>, FALSE)>> ELSE <<>>)
               \o (IF o.at # NoLex THEN <<Node(at, "xa", "katt", i, j, o.at, FALSE)>> ELSE <<>>)
       tx   == IF o.lx # <<>> THEN <<Node(at, "t", "ktext", i, j, o.lx, FALSE)>> ELSE <<>>
@@ -438,7 +473,7 @@ UntypedAnnot(S, inst) == LET f == Flatten(S, inst) IN [n \in 1..Len(f) |-> Untyp
 
 (* derives-from: `instance of element(_, Q)` / `attribute(_, Q)` (nilled elements need Q?) *)
 QueryTypes == {"short", "int", "long", "integer", "decimal", "string", "date", "boolean",
-               "unsignedLong", "nonNegativeInteger",
+               "unsignedLong", "nonNegativeInteger", "gYearMonth", "gYear", "qname",
                "small", "ilist", "u", "ud", "v", "sc", "grp", "anyAtomicType", "anySimpleType", "anyType"}
 InstanceOf(S, a, Q, optional) == a.ty \in AllTypes /\ Q \in ChainS(S, a.ty) /\ (a.nilled => optional)
 
@@ -477,6 +512,24 @@ IDiv2(tv) ==
          [] v.t = "string"  -> RK("err")
          [] OTHER -> RK("na")
 
+(* `sum(a)` over the kids named a: fn:sum adds the TYPED values (integers stay xs:integer, a decimal *)
+(* among them makes the sum xs:decimal)                                                              *)
+RECURSIVE SumInt(_)
+SumInt(vs) == IF vs = <<>> THEN 0 ELSE Head(vs).i + SumInt(Tail(vs))
+RECURSIVE MaxSc(_)
+MaxSc(vs) == IF vs = <<>> THEN 0 ELSE LET r == MaxSc(Tail(vs)) h == IF Head(vs).t = "decimal" THEN Head(vs).sc ELSE 0
+                                      IN IF h > r THEN h ELSE r
+RECURSIVE SumScaled(_, _)
+SumScaled(vs, sc) == IF vs = <<>> THEN 0
+                     ELSE (IF Head(vs).t = "decimal" THEN Head(vs).u * Pow10(sc - Head(vs).sc) ELSE Head(vs).i * Pow10(sc))
+                          + SumScaled(Tail(vs), sc)
+SumProbe(vs) ==    \* vs: the single typed values of the kids named a, in document order
+  IF vs = <<>> \/ \E i \in 1..Len(vs) : vs[i].t \notin {"int", "integer", "decimal"} THEN RK("na")
+  ELSE IF \A i \in 1..Len(vs) : vs[i].t # "decimal" THEN RVal(VInt("integer", SumInt(vs)))
+  ELSE RVal(VDec(NormDec(SumScaled(vs, MaxSc(vs)), MaxSc(vs))))
+(* `. eq xs:T("<its own text>")`: a typed value equals the value its constructor makes of the same text *)
+EqSelf(tv) == IF tv # NoValue /\ Len(tv) = 1 /\ tv[1].t \in VersionedTags THEN RVal(VBool(TRUE)) ELSE RK("na")
+
 (* `. = 7`  (general comparison, existential over the items of the typed value) *)
 NumEq7(v) == IF v.t = "decimal" THEN v.u = 7 * Pow10(v.sc) ELSE v.i = 7
 Eq7(tv) ==
@@ -496,6 +549,19 @@ LtDate(tv) ==
   ELSE IF tv[1].t = "date" THEN RVal(VBool(DateLt(tv[1]))) ELSE RK("err")
 
 ---------------------------------------------------------------------------
+(* What the annotations do NOT depend on (the binding enumerates these renderings of ONE instance): *)
+(*  - comments / processing instructions beside the root element (XDM 6.1: children of the document  *)
+(*    node; validation concerns the document element only)                                          *)
+(*  - where the prefix used in an xsi:type value is declared: the QName is resolved with the          *)
+(*    namespaces IN SCOPE AT ITS ELEMENT (XSD part 1, 3.3.4 clause 4 / Namespaces in XML 6.1), a       *)
+(*    declaration on the element overrides the root's                                                *)
+DocEnvs  == {"plain", "prolog", "epilog", "both"}
+NsPlaces == {"root", "self", "redecl"}
+RootBinding(place) == CASE place = "root" -> "urn:t" [] place = "self" -> "unbound" [] place = "redecl" -> "urn:other"
+SelfBinding(place) == CASE place = "root" -> "unbound" [] place = "self" -> "urn:t" [] place = "redecl" -> "urn:t"
+InScopeAtElement(place) == IF SelfBinding(place) # "unbound" THEN SelfBinding(place) ELSE RootBinding(place)
+LawNsPlaces == \A p \in NsPlaces : InScopeAtElement(p) = "urn:t"
+
 (* the default values written into the schema document (rendered by the binding) *)
 SchemaDefaults(S) ==
   [kids |-> [p \in 1..Len(S.kids) |-> IF S.kids[p].dv THEN DefaultLex(S.kids[p].ty, p) ELSE NoLex],
@@ -519,6 +585,12 @@ Vec(S, inst) ==
       idiv2   |-> [n \in 1..Len(f) |-> IF judged(n) THEN IDiv2(A[n].tv) ELSE RK("na")],
       eq7     |-> [n \in 1..Len(f) |-> IF judged(n) THEN Eq7(A[n].tv) ELSE RK("na")],
       ltdate  |-> [n \in 1..Len(f) |-> IF judged(n) THEN LtDate(A[n].tv) ELSE RK("na")],
+      eqself  |-> [n \in 1..Len(f) |-> IF judged(n) THEN EqSelf(A[n].tv) ELSE RK("na")],
+      suma    |-> LET as == SelectSeq([n \in 1..Len(f) |-> n], LAMBDA n : f[n].s = "kid" /\ f[n].k = "ea")
+                  IN IF \E x \in 1..Len(as) : A[as[x]].tv = NoValue \/ Len(A[as[x]].tv) # 1 THEN RK("na")
+                     ELSE SumProbe([x \in 1..Len(as) |-> A[as[x]].tv[1]]),
+      envs    |-> DocEnvs,
+      nsplaces |-> NsPlaces,
       \* value comparisons of the big-number nodes with literals and with each other: <<.., op, holds>>
       cmplit  |-> [n \in 1..Len(f) |-> IF bign(n) THEN {<<K, op, OpHolds(op, BigCmp(A[n].tv[1], VBig("lit", K)))>> :
                                                           K \in BigLits, op \in CmpOps} ELSE {}],
@@ -535,7 +607,7 @@ LawLexValid == /\ \A T \in Lexed : \A l \in AllLex(T) : ValidLex(T, l)
 LawChain ==    \* derives-from is reflexive, transitive, rooted in anyType; a restriction keeps the class
   /\ \A T \in AllTypes \ {"v"} : T \in Chain(T) /\ "anyType" \in Chain(T)
   /\ \A T \in AllTypes \ {"v"} : \A Q \in Chain(T) : Chain(Q) \subseteq Chain(T)
-  /\ \A T \in SimpleTypes \ {"bint", "bdec"} : AtomClass(T) \in Chain(T)
+  /\ \A T \in SimpleTypes \ {"bint", "bdec", "qname"} : AtomClass(T) \in Chain(T)
   /\ \A A \in AnonTypes : Chain(A) = {A} \cup Chain(AnonBase(A))
 (* the order of the big points: exact, total, and what the digit strings say *)
 LawBig == LET v(K) == VBig("lit", K) IN
@@ -554,7 +626,11 @@ LawIDiv == \A a \in (0 - 7)..7 : LET q == TruncDiv(a, 2) r == a - q * 2 IN
               /\ r \in (0 - 1)..1 /\ (a >= 0 => r >= 0) /\ (a <= 0 => r <= 0)
 LawRestriction == \A l \in AllLex("small") : /\ TypedValue("small", l) = TypedValue("int", l)
                                           /\ ValidLex("int", l)
-StaticLaws == LawLexValid /\ LawChain /\ LawCollapse /\ LawRestriction /\ LawBig /\ LawIDiv
+LawAstro == \A ly \in {0 - 2, 0 - 1, 1, 1999} :
+               /\ AstroYear("1.1", ly) = ly
+               /\ ly < 0 => AstroYear("1.0", ly) = AstroYear("1.1", ly) + 1      \* one year apart before the common era
+               /\ ly > 0 => AstroYear("1.0", ly) = AstroYear("1.1", ly)
+StaticLaws == LawLexValid /\ LawChain /\ LawCollapse /\ LawRestriction /\ LawBig /\ LawIDiv /\ LawNsPlaces /\ LawAstro
 
 PairLaws(S, inst) ==
   LET f == Flatten(S, inst)
